@@ -6,15 +6,6 @@ import FontcProofs.Rounding
 namespace Fontc.Casts
 open Fontc
 
-/-- the nine fields narrowed by `ot_round()` into an i16 -/
-def isI16Round : Field → Bool
-  | .outlineCoord | .compOffset | .lsb | .kernValue | .anchorCoord | .valueDelta | .gvarDelta | .hvarDelta | .metricI16 => true
-  | _ => false
-
-def isU16Round : Field → Bool
-  | .advance | .metricU16 => true
-  | _ => false
-
 theorem i16Round_pipeline (f : Field) (h : isI16Round f = true) (v : Rat) (p : Profile) :
     fieldPipeline f v p = .ok (otRoundI16 v : Int) ∧ ideal f v = (otRound v : Int) ∧
     (Representable f v ↔ inI16 (otRound v)) := by
